@@ -158,11 +158,13 @@ DfsKids(o, i, path, f) ==
 BaseObjs(c, f) == IF c \in f THEN bases[c] ELSE SelectSeq(bases[c], LAMBDA b : born[b] < born[c])
 RECURSIVE AllBases(_, _)
 AllBases(c, f) == <<c>> \o Flatten([i \in 1..Len(BaseObjs(c, f)) |-> AllBases(BaseObjs(c, f)[i], f)])
-\* ---- Class._init_mro (model.py:657-665)
+\* ---- Class._init_mro (model.py:657-665); the fallback for an inconsistent hierarchy lists each class once, at its first position
+RECURSIVE Uniq(_)
+Uniq(q) == IF q = <<>> THEN <<>> ELSE <<Head(q)>> \o Uniq(SelectSeq(Tail(q), LAMBDA x : x # Head(q)))
 InitMro(c) == LET r == Dfs(c, <<>>, fin) IN
-    IF r.raised THEN [mro |-> AllBases(c, r.fin), warn |-> "cycle", fin |-> r.fin]
+    IF r.raised THEN [mro |-> Uniq(AllBases(c, r.fin)), warn |-> "cycle", fin |-> r.fin]
     ELSE LET m == PdMro(c) IN
-         IF m = Bad THEN [mro |-> AllBases(c, r.fin), warn |-> "linearization", fin |-> r.fin]
+         IF m = Bad THEN [mro |-> Uniq(AllBases(c, r.fin)), warn |-> "linearization", fin |-> r.fin]
                     ELSE [mro |-> m, warn |-> "none", fin |-> r.fin]
 \* ---- Class.find (model.py:783-792), Inheritable.docsources (:825-831), get_docstring (:1519-1538)
 PdFind(c) == FirstDefining(mro[c])
